@@ -7,6 +7,18 @@ PY = "/venv/bin/python"
 
 # property id -> (design section, technique, level text, level note)
 BUILT = {
+    "C13": ("§4.13", "exhaustive enumeration of stdheader template instances x leading contexts, of every structural "
+            "mutation H1-H11, and of all leading-line sequences with <= 2 deviating line kinds (header state machine)",
+            "Every template instance in every leading context must yield zero INVALID_HEADER, every single structural "
+            "mutation exactly one; the two-flag header machine is driven through every 13-line leading sequence with at "
+            "most 2 substituted kinds.",
+            "Trusts mc/model/header42.py as the stdheader layout; logo/blank rows and the file-name row replaced by another "
+            "comment are not judged (the property does not name them)."),
+    "C14": ("§4.14", "exhaustive enumeration of header base names (bounded length over {a,9,_,.}) x conforming header "
+            "bodies x guard mutations G1-G8 on the real pipeline",
+            "For every name and body the correct guard must be accepted and each guard mutation must yield its "
+            "HEADER_PROT_* diagnostic on the guard line concerned; the same texts under a .c name must get none.",
+            "Trusts GUARD(name) = upper-case with dots replaced, as the property defines it."),
     "C16": ("§4.16", "exhaustive enumeration of the option lattice (144 vectors) x carrier files through the real "
             "main(), comparing a presentation-independent parse of the output",
             "Every combination of colours, format, -o, debug level and -R value is run on every file of the carrier sets "
